@@ -50,8 +50,8 @@ PROPS = {
         "technique": "Lean 4 proof that the compact wire form is lossless under the admission invariant (model of SetWireInfo/ToWire/ReadWireInfo) + field tables of MarshalDB / UnmarshalDB / ToWire regenerated from event.go and checked symmetric and complete + differential correspondence + real-encoder round-trip oracle (wire, database, JSON, map order)",
         "level_text": "PARTIAL proof (Lean 4): for two nodes whose histories satisfy the admission invariant (C07) an event converted to its wire form on one and read back on the other, which holds its parents, resolves to exactly the sender's parent hashes and carries every other body field verbatim (wire_roundtrip), hence same body, hash and signature validity. Byte level (model Babble.ByteCodec, compared value for value with common.EncodeToString / DecodeFromString and keys.EncodeSignature / DecodeSignature): decoding the canonical hexadecimal spelling of any byte string and the canonical base-36 spelling of any signature (r, s) gives the value back, and the canonical spellings are injective (hex_roundtrip, hex_spelling_injective, signature_roundtrip, signature_spelling_injective). The model of the conversion is compared with Event.ToWire / ReadWireInfo on real hashgraphs. Not modelled: encoding/json, ugorji codec, base64, SHA-256; the JSON transport of blocks, frames and events (nil vs empty slices, binary transactions), the database form after eviction and reopen, and the independence of the frame hash from map fill order are decided by the oracle on the real encoders, including events served by a node that adopted them through a fast-forward frame.",
         "level_note": "Trusted: Lean kernel; wire model tied by correspondence; FNV-32 participant ids injective; hashes determine (creator, index).",
-        "trusted_base": ["encoding/json, ugorji codec (canonical), base64, SHA-256 are used as they are by the oracle", "participant ids (FNV-32) injective on the participants of a run"],
-        "assumptions": ["event id = hash of the body determines creator and index (hypothesis hhash)"],
+        "trusted_base": ["encoding/json, ugorji codec (canonical), base64, SHA-256 are used as they are by the oracle", "participant ids (FNV-32) injective on the participants of a run", "byte-level model Babble.ByteCodec of fmt %X / encoding/hex / strings.Split / math/big Text and SetString in base 36: hand-written, tied to the Go functions by the value-for-value correspondence run"],
+        "assumptions": ["event id = hash of the body determines creator and index (hypothesis hhash)", "bytes are naturals below 256; ECDSA signature components are non-negative"],
     },
     "C13": {
         "title": "Fast-sync continuity",
